@@ -483,7 +483,7 @@ func (g *mgen) classType(c string, depth int) (T, bool) {
 		if g.cfg.NoConsts {
 			return T{}, false
 		}
-		t = T{Kind: KString, Const: Raw(rapid.SampledFrom([]string{"v1", "fixed", "a b"}).Draw(g.t, "cstr"))}
+		t = T{Kind: KString, Const: Raw(rapid.SampledFrom([]string{"v1", "fixed", "a b", "C:\\temp\\new", "say \"hi\" 50%"}).Draw(g.t, "cstr"))}
 	case "const_int":
 		if g.cfg.NoConsts {
 			return T{}, false
